@@ -168,8 +168,13 @@ DoStep ==
         ackBad == IF Ev.ev # "In" THEN Len(gotA) # 0
                   ELSE IF a.ack = <<>> THEN Len(gotA) # 0
                   ELSE ~(Len(gotA) = 1 /\ gotA[1].msg.v = a.ack[1])
+        \* malformed argument lists about which the statement is silent: whether the call reports an error or ignores the
+        \* message is not constrained; only "no event may be raised for it" is
+        lenient == i0.m \in {"closeStream", "deleteStream"} /\ i0.arg # "num"
         verdictSrv ==
-            IF Ev.res \notin {"ok"} /\ ~wantErr THEN "call failed where the protocol prescribes a result: " \o Ev.res
+            IF malformedMeta THEN ""
+            ELSE IF lenient THEN (IF Len(gotE) # 0 THEN "event raised for a malformed message (" \o i0.m \o ")" ELSE "")
+            ELSE IF Ev.res \notin {"ok"} /\ ~wantErr THEN "call failed where the protocol prescribes a result: " \o Ev.res
             ELSE IF wantErr /\ Ev.res = "ok" THEN "call succeeded where it must be refused (" \o i0.m \o ")"
             ELSE IF wantErr /\ (Len(gotO) # 0 \/ Len(gotE) # 0) THEN "refused call returned results"
             ELSE IF wantErr /\ i0.m \in {"accept", "reject"} /\ i0.id \notin DOMAIN st.reqs /\ Ev.probe # prevProbe
